@@ -2,6 +2,7 @@ SPECIFICATION TraceSpec
 CONSTANTS
   Ids <- Ids12
   RelOrder <- Rel5
+  MaxLoad = 2
   MaxInit = 0
   SampleT = 1
   SampleS = 1
